@@ -95,6 +95,12 @@ CHECKS = {
     note="Known finding (not repaired): names containing a double quote do not survive WriteTo/ReadFrom (csv-based reader). Trusted: TLC, the harness's FASTA renderer.",
     technique="TLA+ layout spec + transcribed scanner/read loop, TLC exhaustive small layouts + TLC trace validation of real runs",
     engine="Fai"),
+ "C07": dict(
+    category="model_checking", design_ref="DESIGN.md §5 C07",
+    text="HeaderP models a header's reference / read-group / program lists under the public edit API (documented latitude only for a reference whose name is already present); HeaderI models the code's slice + name table + per-object owner/id with the three AddReference paths, RemoveReference and SetName, and TLC checks its invariants (ids = indices, ownership, unique names, table = list, release on removal) on the complete state graph of a small instance. Seeded edit histories over up to four headers run on the real sam.Header; after every call the projection of every live header and the text/binary serialisation fixpoints (identical text and binary after re-parse, equal exposed values) are validated by TLC against HeaderP; MergeHeaders links are checked by object identity.",
+    note="Trusted: TLC; the harness's projection (pointer identity -> small ints). HeaderI is bound to the code via the P traces and its as-coded switches (8 header defects found and repaired, see KNOWN_FINDINGS.txt).",
+    technique="TLA+ P-spec/I-spec, TLC complete state graph of HeaderI + TLC trace validation of real edit histories with full state projection",
+    engine="Header"),
 }
 NA_REASON = "check not built yet in this round (specification work in progress; see DESIGN.md §10 build order)"
 
@@ -127,6 +133,7 @@ def main():
 
 HOOK_COMMITS = ["4b6c86a", "f712ea4", "5dd3b6c", "b7bc5fc"]
 ENGINES = [
+ dict(name="Header", path="spec/Header", serves_properties=["C07"], kind_free_text="TLA+ HeaderP/HeaderI + TLC MC + trace validation"),
  dict(name="Fai", path="spec/Fai", serves_properties=["C19"], kind_free_text="TLA+ Fai (FaiP/FaiI) + TLC MC + trace validation"),
  dict(name="BinIndex", path="spec/BinIndex", serves_properties=["C04", "C15"], kind_free_text="TLA+ IndexP/IndexI + TLC MC + trace validation"),
  dict(name="Coord", path="spec/Coord", serves_properties=["C16", "C04"], kind_free_text="TLA+ Cigar/Bins + TLC lemmas + trace validation"),
